@@ -43,7 +43,7 @@ import (
 func init() { extractors = append(extractors, extractTrans) }
 
 type transTarget struct {
-	mod             string // generated module Gen/<mod>.lean (one per component, so that a function the
+	mod string // generated module Gen/<mod>.lean (one per component, so that a function the
 	// translator cannot follow only breaks the properties that use that component)
 	rel, recv, name string // package directory, receiver type ("" = function), Go name
 	lean            string // name of the generated def
@@ -52,6 +52,7 @@ type transTarget struct {
 var transTargets = []transTarget{
 	{"TransBM", "", "blockManager", "findNextHeaderCheckpoint", "findNextHeaderCheckpoint"},
 	{"TransBM", "", "blockManager", "findPreviousHeaderCheckpoint", "findPreviousHeaderCheckpoint"},
+	{"TransBM", "", "blockManager", "BlockHeadersSynced", "BlockHeadersSynced"},
 	{"TransBM", "headerlist", "", "invertLowestOne", "invertLowestOne"},
 	{"TransBM", "headerlist", "", "getAncestorHeight", "getAncestorHeight"},
 	{"TransImport", "chainimport", "", "targetHeightToImportSourceIndex", "targetHeightToImportSourceIndex"},
@@ -72,6 +73,8 @@ var transExtReal = map[string]bool{
 	"github.com/btcsuite/btcd/chaincfg/v2":  true,
 	"github.com/btcsuite/btcd/chainhash/v2": true,
 	"github.com/btcsuite/btcd/wire/v2":      true,
+	"github.com/btcsuite/btcd/blockchain":   true,
+	"github.com/btcsuite/btcd/peer":         true,
 }
 
 // standard packages the translator needs signatures of (type-checked from GOROOT's sources)
@@ -316,6 +319,21 @@ func structOK(n *types.Named) bool {
 		return false
 	}
 	p := n.Obj().Pkg().Path()
+	if st, ok := n.Underlying().(*types.Struct); ok {
+		// a struct that owns a channel, a lock, a wait group or a callback is a service object, not data
+		for i := 0; i < st.NumFields(); i++ {
+			switch ft := st.Field(i).Type().Underlying().(type) {
+			case *types.Chan, *types.Signature:
+				return false
+			case *types.Struct:
+				if fn, ok := types.Unalias(st.Field(i).Type()).(*types.Named); ok && fn.Obj().Pkg() != nil &&
+					(fn.Obj().Pkg().Path() == "sync" || fn.Obj().Pkg().Path() == "sync/atomic") {
+					return false
+				}
+				_ = ft
+			}
+		}
+	}
 	for _, tg := range transTargets {
 		// the receiver type of a translated method is a service object, not data: an atom
 		if tg.recv == n.Obj().Name() && (p == modPath+"/"+tg.rel || (tg.rel == "" && p == modPath)) {
@@ -896,6 +914,19 @@ func (t *tfunc) prepass() {
 				if sel := info.Selections[v]; sel != nil && sel.Kind() == types.FieldVal {
 					items[path] = item{path, t.g.leanType(typeOf(t.pi, v)), false}
 					return false
+				}
+			}
+		case *ast.BinaryExpr:
+			// `b.syncPeer == nil` on receiver state of an opaque type: a Bool read of its own
+			if v.Op == token.EQL || v.Op == token.NEQ {
+				for _, pair := range [][2]ast.Expr{{v.X, v.Y}, {v.Y, v.X}} {
+					if isNilIdent(info, pair[1]) {
+						if path, ok := t.recvPath(pair[0]); ok && path != "" && t.g.leanType(typeOf(t.pi, pair[0])) == "GoInt.Atom" {
+							k := path + " == nil"
+							items[k] = item{k, "Bool", false}
+							return false
+						}
+					}
 				}
 			}
 		case *ast.Ident:
